@@ -21,7 +21,7 @@ func c06Write(wd, rel, content string) {
 	_ = os.WriteFile(p, []byte(content), 0o644)
 }
 
-const c06Svc = `{image: "img-${V:-none}-${W:-none}", build: ./ctx, volumes: [{type: bind, source: ./data, target: /data}], env_file: [{path: ./svc.env, required: false}]}`
+const c06Svc = `{image: "img-${V:-none}-${W:-none}", build: ./ctx, volumes: [{type: bind, source: ./data, target: /data}], env_file: [{path: ./svc.env, required: false}], healthcheck: {test: [CMD, "true"], retries: "${RETRIES:-3}"}, read_only: "${RO:-true}"}`
 
 func c06Materialize(wd string, f map[string]interface{}, n int) string {
 	b := func(k string) bool { return asBool(f[k]) }
@@ -145,7 +145,7 @@ func c06Pasted(res []interface{}) string {
 		var def string
 		switch kind {
 		case "services":
-			def = fmt.Sprintf(`{image: "img-%s-%s", build: "%sctx", volumes: [{type: bind, source: "%sdata", target: /data}], env_file: [{path: "%ssvc.env", required: false}]}`, asStr(r["v"]), asStr(r["w"]), dir, dir, dir)
+			def = fmt.Sprintf(`{image: "img-%s-%s", build: "%sctx", volumes: [{type: bind, source: "%sdata", target: /data}], env_file: [{path: "%ssvc.env", required: false}], healthcheck: {test: [CMD, "true"], retries: 3}, read_only: true}`, asStr(r["v"]), asStr(r["w"]), dir, dir, dir)
 		case "volumes":
 			def = fmt.Sprintf(`{labels: {v: "%s"}}`, asStr(r["v"]))
 		case "networks":
